@@ -381,7 +381,7 @@ def spec_c05(tier, seed):
     q = tier == 'quick'
     parts = []
     for s1 in (True, False):
-        for v1 in range(14):
+        for v1 in range(15):
             if q:
                 parts.append({'s1': s1, 'v1': v1, 'moments': 2, 'third': 0, 'lenhdr': (v1 % 2 == 0)})
                 if s1 and v1 in (3, 7):
@@ -394,8 +394,8 @@ def spec_c05(tier, seed):
     return dict(
         conds=[Cond('c05_wire_order', 'c_wire_order', parts=parts, timeout=600 if q else 1800)],
         explanation='a real RSocketServer (fragment size 64) with the real sender task on a transport whose send_frame blocks '
-                    'until the harness releases it; two free frame sources (stream 1|3 x 14 variants: payload / payload+complete '
-                    'of 1..4 fragments, complete, error, cancel, request-n) plus an optional third are queued through the '
+                    'until the harness releases it; two free frame sources (stream 1|3 x 15 variants: payload / payload+complete '
+                    'of 1..4 fragments, complete, error (application exception / protocol error), cancel, request-n) plus an optional third are queued through the '
                     'socket API before the sender starts or after the j-th emitted frame; the emitted wire sequence is fed to '
                     'a receiver-side FrameFragmentCache: per-stream order = queue order, no same-stream frame between '
                     'fragments, every payload reassembles to the original bytes',
@@ -423,9 +423,18 @@ def spec_c06(tier, seed):
                         continue
                     rparts.append({'src': src, 'role': role, 'm': m, 'col': col})
     cparts = [{'src': src, 'm': m, 'col': False} for src in srcs for m in ((1, 3) if q else ms)]
+    gparts = []
+    for src in srcs:
+        for role in ('stream', 'chan'):
+            for m, ng in (((4, 6),) if q else ((4, 6), (8, 6), (3, 10))):
+                for burst in (True, False):
+                    if q and ((role == 'chan' and src in ('gen', 'rx4', 'rx3')) or (not burst and (src, role) != ('rx4bp', 'stream'))):
+                        continue
+                    gparts.append({'src': src, 'role': role, 'm': m, 'ng': ng, 'col': False, 'burst': burst})
     return dict(
         conds=[
             Cond('c06_credit', 'c_responder_credit', parts=rparts, timeout=400),
+            Cond('c06_credit', 'c_grant_sequence', parts=gparts, timeout=400),
             Cond('c06_credit', 'c_channel_requester_credit', parts=cparts, timeout=400),
             Cond('c06_credit', 'c_forwarding', timeout=300),
         ],
@@ -438,8 +447,9 @@ def spec_c06(tier, seed):
                     'application (initial_request_n, Subscription.request) appears on the wire with exactly that value',
         bounds=['M in %s elements; 3 credit values each in [1, 2^31-1] (symbolic)' % (list(ms),),
                 'REQUEST_N delivery: same read as the request / after quiescence / two back to back',
+                'c_grant_sequence: 6 (thorough also 10) REQUEST_N frames of one symbolic value g, all pending together (burst) or one per quiescent point, M = 4 (thorough also 8, 3)',
                 '6 stream sources x {stream responder, channel responder, channel requester}; complete-on-last or separate completion for generator sources'],
-        outside=['more than 3 credit frames, more than %d elements, publishers written by applications' % max(ms)],
+        outside=['more than 3 independent credit values, more than 10 REQUEST_N frames, more than %d elements, publishers written by applications' % max(max(ms), 8)],
         functions=['rsocket.streams.stream_from_generator.StreamFromGenerator.request', 'rsocket.streams.stream_from_generator.StreamFromGenerator.queue_next_n',
                    'rsocket.streams.stream_from_generator.StreamFromGenerator._generate_next_n', 'rsocket.streams.stream_from_generator.StreamFromGenerator.feed_subscriber',
                    'rsocket.streams.stream_from_async_generator.StreamFromAsyncGenerator._generate_next_n',
@@ -802,7 +812,12 @@ def spec_c01(tier, seed):
                     mode = (pi + l1 + 3) % 6
                     parts.append({'kinds': kinds[::-1], 'l1': l1, 'mode': mode, 'l2': (l1 + mode + 2) % 4})
     return dict(
-        conds=[Cond('c01_e2e', 'c_end_to_end', parts=parts, timeout=900)],
+        conds=[Cond('c01_e2e', 'c_end_to_end', parts=parts, timeout=900),
+               # "all payload sizes from 0 bytes to many fragments": the end-to-end runs use length-class representatives;
+               # that every other length (in particular the ones that end exactly on a fragment boundary) fragments and
+               # reassembles to the original frame is this lemma of C03, which C01 therefore depends on
+               Cond('c03_fragments', 'c_span_pipeline', parts=[{'cls': c, 'fmax': 100000 if q else 16777215} for c in range(5)],
+                    timeout=400 if q else 1200)],
         explanation='a real RSocketClient and a real RSocketServer on one virtual loop joined by a simulated link: TCP framing '
                     'over the real TransportTCP / StreamReader / FrameParser with re-chunked delivery (whole, or the first '
                     'deliveries of one direction cut to 1 and 70 bytes so reads split length prefixes, headers and fragments, or with '
@@ -812,7 +827,9 @@ def spec_c01(tier, seed):
                     'length classes (1..3+ fragments at size 64) with a distinct byte pattern each, fragmentation on/off, '
                     'responder publishers in a burst or one element per millisecond. Oracle: every payload handed in arrives '
                     'at the matching handler/subscriber exactly once, byte for byte, in order, nowhere else; each caller gets '
-                    'its own response; nothing left open.',
+                    'its own response; nothing left open.  Payload sizes between the class representatives are covered by the '
+                    'fragmentation / reassembly lemma c03_fragments.c_span_pipeline (data length, metadata length and fragment size '
+                    'symbolic), an obligation of this check too.',
         bounds=['all %d unordered pairs of interaction models (thorough: both orders); who initiates each (symbolic), fragmentation (symbolic), pacing (symbolic)' % len(pairs),
                 'length class of the first payload and link mode: %s; <= 2 elements per stream direction' % ('2 combinations per pair (rotating with the seed), one per pacing' if q else 'for every pair and every length class 3 of the 6 link modes (rotating), one more in the reversed order'),
                 '%d partitions; on these paths every value is concrete once the selectors are branched on: the engine is an exhaustive enumerator of the bounded configuration space, the symbolic-data content of C01 sits in the lemmas it composes (C02, C03, C04, C05)' % len(parts)],
